@@ -6,6 +6,10 @@ from . import tokens as T
 from . import c06
 
 EXPLANATION = (
+    "(owned) On the expression catalogue (~13 000 expressions, ~5 600 buildable, incl. classes, every shape of repetition bounds, "
+    "two and nested branches) Token::into_owned - evaluated from its THIR with the whole fold_map / decompose / compose machinery - "
+    "returns a tree that is structurally identical to its input (kinds, children in order, bounds, flags, class members).  For all "
+    "trees, by cases: "
     "Static decision that the conversions are structure-preserving: (kinds) LeafKind::into_owned, BranchKind::decompose, "
     "BranchFold::fold and the three compose impls keep the variant and every child (a repetition keeps its single child "
     "and its bounds); (order) Token::into_owned - the generic fold_map machinery - rebuilds every tree of a catalogue of "
@@ -14,7 +18,7 @@ EXPLANATION = (
     "existing pair together (new, partition, into_owned, any); (route) FromStr = new + into_owned, TryFrom<&str> = new, "
     "Display writes the stored expression of the tree.  Equality of behaviour as such is not computed; owned captures are "
     "decided in C04.whole.")
-RULES = "C19.kinds (TABLE), C19.order (EFFECT), C19.pair (PROV), C19.route (WHO)"
+RULES = "C19.owned (TABLE on a catalogue: into_owned is the identity on trees), C19.kinds (TABLE), C19.order (EFFECT), C19.pair (PROV), C19.route (WHO)"
 
 
 def run(ctx):
@@ -26,6 +30,8 @@ def run(ctx):
     rule_order(F, R)
     rule_pair(F, R)
     rule_route(F, R)
+    from . import exhaust
+    exhaust.report_query(F, R, "C19.owned", ctx.tier, "owned", 10000, 4000)
 
 
 def canon(v):
